@@ -460,6 +460,9 @@ func configs(tier string) []cfg {
 		{Name: "fsub[name=a]/refilter(name=a|ns/*)/h2", Variant: "fsub", F0: 4, Init: init2, Hist: h2, Refs: []int{9}, Mode: "S2", Bound: d},
 		{Name: "fsub[name=a]/refilter(name in a,b ; name=a)/h2", Variant: "fsub", F0: 4, Init: init2, Hist: h2, Refs: []int{8, 4}, Mode: "S2", Bound: d},
 		{Name: "dsub/refilter(l=1)/h2", Variant: "dsub", Init: init1, Hist: h2, Refs: []int{2}, Mode: "S2", Bound: d},
+		// the first filter supplied to a deferred node accepts everything: it is only ready once it holds the parent's content
+		{Name: "dsub/init-a1,b1/refilter(Null)/upd-a2(l=0)", Variant: "dsub", Init: init2, Hist: h2[:1], Refs: []int{0}, Mode: "S2", Bound: d + 1},
+		{Name: "dclone>sub/init-a1,b1/refilter(Null)/upd-a2(l=0)", Variant: "dclone>sub", Init: init2, Hist: h2[:1], Refs: []int{0}, Mode: "S2", Bound: d},
 		{Name: "dsub/refilter(All,l=1)/h2", Variant: "dsub", Init: init1, Hist: h2, Refs: []int{1, 2}, Mode: "S2", Bound: d},
 		{Name: "dsub/norefilter/h2", Variant: "dsub", Init: init1, Hist: h2, Mode: "S2", Bound: d},
 		{Name: "fclone[l=1]>sub/refilter(Null)/h2", Variant: "fclone>sub", F0: 2, Init: init1, Hist: h2, Refs: []int{0}, Mode: "S2", Bound: d},
@@ -472,6 +475,9 @@ func configs(tier string) []cfg {
 		{Name: "dsub/init-a1,b1/refilter(l=1)/upd-a2(l=0)", Variant: "dsub", Init: init2, Hist: h2[:1], Refs: []int{2}, Mode: "S2", Bound: d + 1},
 		{Name: "fclone[l=1]>sub/init-a1,b1/upd-a2(l=0)", Variant: "fclone>sub", F0: 2, Init: init2, Hist: h2[:1], Mode: "S2", Bound: d + 1},
 		{Name: "dsub/refilter(l=1)/cre-b", Variant: "dsub", Init: init1, Hist: []pop{{kind: "create", obj: b(2, "1")}}, Refs: []int{2}, Mode: "S1"},
+		// one parent event racing with one post-ready Refilter, one deviation more than the rest (the event has to land
+		// between the refilter's list of the parent and the end of its processing)
+		{Name: "fsub[l=1]/refilter(l=0)/upd-a2(l=0)", Variant: "fsub", F0: 2, Init: init1, Hist: h2[:1], Refs: []int{3}, Mode: "S2", Bound: d + 1},
 	}
 	if tier == "thorough" {
 		for i := range out {
@@ -537,6 +543,7 @@ func controllerScenarios(tier string) []runner.Sc {
 		mk("first-list-slow", ctl.Cfg{ListFaults: map[int]fakeapi.ListFault{1: {Latency: time.Second}}}, false),
 		mk("first-list-error", ctl.Cfg{ListFaults: map[int]fakeapi.ListFault{1: {Kind: "error"}}}, true),
 		mk("first-list-error+emptylist", ctl.Cfg{ListFaults: map[int]fakeapi.ListFault{1: {Kind: "error+list"}}}, true),
+		mk("first-list-with-a-foreign-item", ctl.Cfg{ListFaults: map[int]fakeapi.ListFault{1: {Kind: "nonobjects"}}}, true),
 		mk("first-list-nonlist", ctl.Cfg{ListFaults: map[int]fakeapi.ListFault{1: {Kind: "nonlist"}}}, true),
 		mk("close-while-first-list-blocks", ctl.Cfg{ListFaults: map[int]fakeapi.ListFault{1: {Kind: "block"}}, Close: ctl.CloseSpec{Kind: "close", AfterMut: -1, At: time.Second}}, true),
 		mk("ctx-cancel-while-first-list-blocks", ctl.Cfg{ListFaults: map[int]fakeapi.ListFault{1: {Kind: "block"}}, Close: ctl.CloseSpec{Kind: "ctx", AfterMut: -1, At: time.Second}}, true),
